@@ -121,6 +121,12 @@ pub(crate) fn read_data_block_patch<T: Read + Seek>(mut buf: T) -> Option<Vec<u8
         } => {
             let compressed_length = usize::try_from(compressed_length).ok()?;
             let decompressed_length = usize::try_from(decompressed_length).ok()?;
+
+            // refuse absurd sizes before allocating the output (same limit as read_data_block)
+            if decompressed_length > MAX_DECOMPRESSED_BLOCK_SIZE {
+                return None;
+            }
+
             let compressed_length: usize = ((compressed_length + 143) & 0xFFFFFF80)
                 .checked_sub(block_header.size as usize)?;
 
